@@ -583,6 +583,8 @@ def signature_b(case, impl, models):
     if not (0 < k <= len(ops)):
         return "other:init"
     o = ops[k - 1]
+    if o[0] == "BZ":
+        return "restore-keeps-conflicting-address"
     if len(o) < 2:
         o = o + [""]
     ires, mres = iseg.split(" | ")[0], mseg.split(" | ")[0]
@@ -665,6 +667,10 @@ def signature(case, impl, models):
             return "dhcp4-expiry-takeover-frees-current-owner"
     if o[0] in ("PA", "ID", "IQ", "IS", "IV") and vrf_blind(case, ops[:k], o[1], il, ml):
         return "reserve-ignores-vrf"
+    if (o[0] in ("ID", "IQ") and len(o) > 3 and o[3] != "-" and il == ml and ires != mres and
+            "ctx4=%s" % o[3] in ires and
+            not any(f == "4" and lo <= int(o[3]) <= hi for f, lo, hi in case_pools(case))):
+        return "static-outside-pools-untracked"
     if o[0] in ("ID", "IQ") and (" nil " in mres + " ") and " panic " in ires + " " and il == ml:
         return "dhcp4-unresolved-nil-pool-panic"
     if o[0] in ("ID", "IQ") and (" nil " in mres + " ") and (" offer:" in ires or " ack:" in ires) and il == ml:
